@@ -9,6 +9,7 @@ package main
 
 import (
 	"fmt"
+	"sort"
 	"strings"
 
 	"github.com/pentops/j5/internal/j5s/protoprint"
@@ -180,6 +181,12 @@ func eraseKeysGo(o optionreflect.OptionField, blank bool) optionreflect.OptionFi
 	}
 	for _, c := range o.Children {
 		out.Children = append(out.Children, eraseKeysGo(c, o.FieldType == optionreflect.FieldTypeArray))
+	}
+	if o.FieldType == optionreflect.FieldTypeMessage {
+		// The order of the fields of a message literal carries no meaning (the walker lists them in the
+		// order of the message's declaration, which for a message declared in the printed file itself is
+		// the order of the text): canonical order by name, occurrences of one name stay in order.
+		sort.SliceStable(out.Children, func(i, j int) bool { return out.Children[i].Key < out.Children[j].Key })
 	}
 	return out
 }
